@@ -75,16 +75,41 @@ class Action:
 
         old_to_new_parameter_names: the mapping between the old and new parameter names.
         """
-        ordered_old_signature = list(self.signature.keys())
-        for old_param_name in ordered_old_signature:
-            new_param_name = old_to_new_parameter_names[old_param_name]
-            self.signature[new_param_name] = self.signature.pop(old_param_name)
-
+        self.signature = {
+            old_to_new_parameter_names.get(old_param_name, old_param_name): param_type
+            for old_param_name, param_type in self.signature.items()
+        }
         self.preconditions.change_signature(old_to_new_parameter_names)
-        for effect in self.discrete_effects:
+        self.discrete_effects = self._change_effects_signature(
+            self.discrete_effects, old_to_new_parameter_names
+        )
+        self.numeric_effects = self._change_effects_signature(
+            self.numeric_effects, old_to_new_parameter_names
+        )
+        conditional_effects = list(self.conditional_effects)
+        for universal_effect in self.universal_effects:
+            conditional_effects.extend(universal_effect.conditional_effects)
+
+        for conditional_effect in conditional_effects:
+            conditional_effect.antecedents.change_signature(old_to_new_parameter_names)
+            conditional_effect.discrete_effects = self._change_effects_signature(
+                conditional_effect.discrete_effects, old_to_new_parameter_names
+            )
+            conditional_effect.numeric_effects = self._change_effects_signature(
+                conditional_effect.numeric_effects, old_to_new_parameter_names
+            )
+
+    @staticmethod
+    def _change_effects_signature(
+        effects: Set, old_to_new_parameter_names: Dict[str, str]
+    ) -> Set:
+        """Changes the signature of the effects and returns them in a new set (the predicates' hash changes).
+
+        :param effects: the discrete or the numeric effects to change.
+        :param old_to_new_parameter_names: the mapping between the old and new parameter names.
+        :return: a set containing the changed effects.
+        """
+        for effect in effects:
             effect.change_signature(old_to_new_parameter_names)
 
-        for effect in self.numeric_effects:
-            effect.change_signature(old_to_new_parameter_names)
-
-        # TODO: change the signature of the conditional and universal effects.
+        return {effect for effect in effects}
